@@ -93,9 +93,10 @@ def rule_modify(rep, rule="M-modify"):
         def mk(name, base):
             ents = Lst([Tup([t, Lin.num(base + i)]) for i, t in enumerate(times)])
             return I.instantiate(sub, [name, ents, Lin.num(0), Lin.num(2)], {})
-        tiers = {n: mk(n, b) for n, b in (("F1", 100), ("F2", 200), ("B1", 300), ("B2", 400))}
+        tiers = {n: mk(n, b) for n, b in (("F1", 100), ("F2", 200), ("B1", 300), ("B2", 400), ("A1", 500))}
         kits = {}
-        for kname, members in (("formants", ("F1", "F2")), ("bandwidths", ("B1", "B2"))):
+        # a third group whose name merely *contains* the addressed name, as Praat's own groups do
+        for kname, members in (("formants", ("F1", "F2")), ("bandwidths", ("B1", "B2")), ("oral_formants_amplitudes", ("A1",))):
             kit = I.instantiate(inter, [kname], {})
             for mname in members:
                 I.call_value(I.getattr(kit, "addTier"), [tiers[mname]], {})
@@ -108,7 +109,7 @@ def rule_modify(rep, rule="M-modify"):
         for n, t in tiers.items():
             ents = I.iterate(I.getattr(t, "entries"))
             touched = n in ("F1", "F2")
-            base = {"F1": 100, "F2": 200, "B1": 300, "B2": 400}[n]
+            base = {"F1": 100, "F2": 200, "B1": 300, "B2": 400, "A1": 500}[n]
             if len(ents) != 3:
                 problems.append("%s has %d entries" % (n, len(ents)))
                 continue
@@ -126,7 +127,7 @@ def rule_modify(rep, rule="M-modify"):
                     problems.append("%s (not addressed) value %d changed to %r" % (n, i, vv))
         if len(calls) != 6:
             problems.append("function applied %d times, expected once per value of the 2 addressed tiers (6)" % len(calls))
-        rep.check(not problems, rule, "KlattContainerTier.modifySubtiers / KlattPointTier.modifyValues", "container {formants: F1,F2; bandwidths: B1,B2}",
+        rep.check(not problems, rule, "KlattContainerTier.modifySubtiers / KlattPointTier.modifyValues", "container {formants: F1,F2; bandwidths: B1,B2; oral_formants_amplitudes: A1}",
                   ok="the function is applied exactly once to every value of the addressed sub-tiers, in order; times and all other tiers untouched", bad="; ".join(problems[:4]))
     except PyRaise as e:
         rep.refuted(rule, "KlattContainerTier.modifySubtiers", "interpretation", "raises %s" % e.name)
